@@ -3,6 +3,7 @@ package main
 import (
 	"fmt"
 	"go/ast"
+	"go/scanner"
 	"go/token"
 	"go/types"
 	"os"
@@ -136,6 +137,32 @@ func checkC02(c *Ctx, r *Report) {
 		// the each blocks are not wrapped: ctl is in root body, routes in ctl body (by construction of routesProgram)
 		o := r.add("C02.a", "tpl-order", key+":one-registration-per-route", en+": every element of Controllers×Routes emits exactly one unconditional `engine.<verb>(...)` registration; nothing reads Hiding", []string{eng.Routes.File}, sites, viol)
 		o.NonTrivial = true
+
+		// the registrations run whenever RegisterRoutes(engine) is called: the controllers loop sits
+		// directly in its body (or in a function its body calls unconditionally), not in a closure,
+		// a branch, or behind a once-only gate
+		{
+			var src strings.Builder
+			for _, st := range eng.Routes.Prog.Body {
+				switch n := st.(type) {
+				case *hast.ContentStatement:
+					src.WriteString(n.Value)
+				case *hast.MustacheStatement:
+					src.WriteString(" " + mustachePlaceholder(n) + " ")
+				case *hast.BlockStatement:
+					if n == ctl {
+						src.WriteString("\n__CONTROLLERS_LOOP__()\n")
+					} else {
+						src.WriteString("\n")
+					}
+				default:
+					src.WriteString("\n")
+				}
+			}
+			v := registrationReachability(goToksStmts(src.String()))
+			o := r.add("C02.a", "tpl-order", key+":registered-on-every-call", en+": every call of RegisterRoutes(engine) registers the routes on that engine (the loop is not in a closure, a branch or behind a once-only gate)", []string{eng.Routes.File}, []string{tplSite(eng.Routes, eng, ctl.Line)}, v)
+			o.NonTrivial = true
+		}
 
 		// C02.b verb and path operands
 		viol = ""
@@ -419,4 +446,109 @@ func checkUrlParamRegex(c *Ctx, r *Report, clause string) {
 		o := r.add(clause, "setagree", en+":urlParamRegex⊇url-safe-names", en+": every URL-safe parameter name ([A-Za-z0-9_-]) is translated to the engine's parameter syntax", []string{eng.Routes.File + "#urlParamRegex"}, []string{site}, viol)
 		o.NonTrivial = true
 	}
+}
+
+// registrationReachability reads the Go skeleton of routes.hbs (the controllers loop replaced by
+// a marker call) and answers "" when the marker is a top-level statement of RegisterRoutes' body,
+// or of a function that RegisterRoutes' body calls as a top-level statement (transitively).
+func registrationReachability(ts []gtok) string {
+	type fnInfo struct {
+		name     string
+		topCalls map[string]bool // functions called as top-level statements of the body (no enclosing block/closure)
+	}
+	fns := map[string]*fnInfo{}
+	var cur *fnInfo
+	depth, bodyDepth := 0, -1
+	paren := 0
+	markerIn, markerDepth := "", -1
+	returnsBefore := map[string]bool{}
+	stmtStart := true
+	for i := 0; i < len(ts); i++ {
+		t := ts[i]
+		switch t.Tok {
+		case token.LBRACE:
+			depth++
+			stmtStart = true
+			continue
+		case token.RBRACE:
+			depth--
+			if cur != nil && depth < bodyDepth {
+				cur, bodyDepth = nil, -1
+			}
+			stmtStart = true
+			continue
+		case token.LPAREN:
+			paren++
+		case token.RPAREN:
+			paren--
+		case token.SEMICOLON:
+			stmtStart = true
+			continue
+		}
+		if depth == 0 && t.Tok == token.FUNC && i+2 < len(ts) && ts[i+1].Tok == token.IDENT && ts[i+2].Tok == token.LPAREN {
+			cur = &fnInfo{name: ts[i+1].Lit, topCalls: map[string]bool{}}
+			fns[cur.name] = cur
+			bodyDepth = 1
+		}
+		if t.Tok == token.RETURN && cur != nil && markerIn == "" {
+			returnsBefore[cur.name] = true
+		}
+		if t.Tok == token.IDENT && i+1 < len(ts) && ts[i+1].Tok == token.LPAREN && cur != nil {
+			if t.Lit == "__CONTROLLERS_LOOP__" {
+				markerIn, markerDepth = cur.name, depth-bodyDepth
+				if paren > 0 {
+					markerDepth = 99
+				}
+			} else if depth == bodyDepth && paren == 0 && stmtStart {
+				cur.topCalls[t.Lit] = true
+			}
+		}
+		stmtStart = false
+	}
+	if markerIn == "" {
+		return "the controllers loop is not inside any function of routes.hbs"
+	}
+	if returnsBefore[markerIn] {
+		return markerIn + " can return before it reaches the controllers loop: the routes are registered only on some calls"
+	}
+	if markerDepth != 0 {
+		return "the controllers loop is nested inside a block or closure of " + markerIn + ": the routes are registered only when that block runs"
+	}
+	// reach markerIn from RegisterRoutes through top-level calls
+	seen := map[string]bool{}
+	work := []string{"RegisterRoutes"}
+	for len(work) > 0 {
+		n := work[len(work)-1]
+		work = work[:len(work)-1]
+		if seen[n] {
+			continue
+		}
+		seen[n] = true
+		if n == markerIn {
+			return ""
+		}
+		if f := fns[n]; f != nil {
+			for c := range f.topCalls {
+				work = append(work, c)
+			}
+		}
+	}
+	return "the controllers loop is in " + markerIn + ", which RegisterRoutes(engine) does not call as an unconditional statement of its body: a call of RegisterRoutes may register nothing on the engine it is given"
+}
+
+// goToksStmts tokenises like goToks but keeps the statement separators Go inserts at line ends.
+func goToksStmts(src string) []gtok {
+	var sc scanner.Scanner
+	fset := token.NewFileSet()
+	f := fset.AddFile("", fset.Base(), len(src))
+	sc.Init(f, []byte(src), func(token.Position, string) {}, 0)
+	var out []gtok
+	for {
+		_, tok, lit := sc.Scan()
+		if tok == token.EOF {
+			break
+		}
+		out = append(out, gtok{tok, lit})
+	}
+	return out
 }
